@@ -152,6 +152,8 @@ def main():
         reset(wt)
         sh(["git", "checkout", "--detach", sh(["git", "-C", "/repo", "rev-parse", "HEAD"])[1].strip()], cwd=wt)
     for d in sys.argv[2:]:
+        if os.path.isfile(os.path.join(d, "confirm.json")):
+            continue  # already decided (possibly by another slot)
         t0 = time.time()
         try:
             r = confirm(wt, os.path.abspath(d))
